@@ -74,16 +74,25 @@ class AsText(str):
     """marker for write_xlsx: store this string as a TEXT cell even if it starts with '=' (Excel: typed with a leading apostrophe)"""
 
 
-def write_xlsx(path, sheets, write_only=False):
+def write_xlsx(path, sheets, write_only=False, chart_before=None):
+    """chart_before = k: a chart sheet titled 'Chart' is put among the tabs, just before the k-th worksheet (0-based)"""
     import openpyxl
     wb = openpyxl.Workbook()
     wb.remove(wb.active)
-    for title, cells in sheets:
+    chart_sheet = None
+    for si, (title, cells) in enumerate(sheets):
+        if chart_before == si:
+            chart_sheet = wb.create_chartsheet('Chart')
         ws = wb.create_sheet(title)
         for (c, r), v in sorted(cells.items(), key=lambda kv: (kv[0][1], kv[0][0])):
             oc = ws.cell(row=r + 1, column=c + 1, value=str(v) if isinstance(v, AsText) else v)
             if isinstance(v, AsText):
                 oc.data_type = 's'
+    if chart_sheet is not None:
+        from openpyxl.chart import BarChart, Reference
+        ch = BarChart()
+        ch.add_data(Reference(wb.worksheets[0], min_col=1, min_row=1, max_row=2))
+        chart_sheet.add_chart(ch)
     wb.save(path)
     return path
 
@@ -313,13 +322,13 @@ class _Session:
         return out
 
 
-def public_path_eval(scratch, sheets, cells, overrides=None, tag='pp'):
+def public_path_eval(scratch, sheets, cells, overrides=None, tag='pp', chart_before=None):
     """The path the properties name: xlsx -> Parser.write_translation -> Executor(class_file).
     sheets: [(title, {(c,r): v})]; cells: [(s,c,r)]. Returns list of ('val'|'eexc'|'texc', payload)."""
     x = os.path.join(scratch, tag + '.xlsx')
     p = os.path.join(scratch, tag + '_gen.py')
     try:
-        write_xlsx(x, sheets)
+        write_xlsx(x, sheets, chart_before=chart_before)
         Parser().set_excel_file_path(x).write_translation(p)
         ex = Executor().set_executed_class(class_file=p)
     except BaseException as e:  # noqa
